@@ -199,6 +199,16 @@ type c29Case struct {
 func genC29(t *rapid.T) c29Case {
 	n := rapid.IntRange(3, 14).Draw(t, "n")
 	var c c29Case
+	switch rapid.IntRange(0, 5).Draw(t, "pattern") {
+	case 0:
+		// a handler is taken off before the channel's only subscription is released
+		ch := rapid.IntRange(0, 1).Draw(t, "pch")
+		c.Ops = append(c.Ops, c29Op{"sub", ch, 0}, c29Op{"addh", ch, 0}, c29Op{"rmh", ch, 0}, c29Op{"rel", ch, 0}, c29Op{"pub", ch, 0})
+	case 1:
+		// two handlers on one subscription are taken off one after the other
+		ch := rapid.IntRange(0, 1).Draw(t, "pch")
+		c.Ops = append(c.Ops, c29Op{"sub", ch, 0}, c29Op{"addh", ch, 0}, c29Op{"addh", ch, 0}, c29Op{"rmh", ch, rapid.IntRange(0, 1).Draw(t, "first")}, c29Op{"pub", ch, 0}, c29Op{"rmh", ch, 0}, c29Op{"pub", ch, 0})
+	}
 	for i := 0; i < n; i++ {
 		c.Ops = append(c.Ops, c29Op{
 			Op: rapid.SampledFrom([]string{"sub", "sub", "addh", "addh", "rmh", "rel", "rel", "pub", "pub", "pub", "slowrel", "floodrel"}).Draw(t, "op"),
@@ -575,7 +585,7 @@ func checkC29(c c29Case) (o vstat.Outcome) {
 
 var specC29 = vstat.Spec[c29Case]{
 	Property: "C29",
-	Rule: "subscription lifecycle on one real FloodSub node with an attached harness peer: histories of 3-14 operations subscribe (<=3 live, two channels) / add handler / remove handler / release / publish-from-peer (followed by an in-order marker); " +
+	Rule: "subscription lifecycle on one real FloodSub node with an attached harness peer: histories of 3-14 operations (a third of them after a prefix in which handlers are removed before their subscription is released) subscribe (<=3 live, two channels) / add handler / remove handler / release / publish-from-peer (followed by an in-order marker); " +
 		"oracle: a message sent after a handler was removed or its subscription released never reaches that handler, active handlers get each message exactly once; after every operation the peer has been told subscribe=true iff a local subscription on the channel remains (unsubscribe only after the last release; eventual, 3 s); non-trivial = a release right after a publish, or two subscriptions on one channel",
 	Gen:      genC29,
 	Check:    checkC29,
